@@ -230,6 +230,20 @@ def inject(p, cls, r):
             return None
         ops.append({"op": "flow", "kind": "importation", "name": "cnt", "param": "1", "dst": comps[0], "expected": 97})
         return q, len(ops)
+    if cls == "flow_count_zero":
+        # "this call adds no flow" (expected_flow_count=0) stated of a call that adds at least one, for every kind of flow
+        if any(o["op"] in ("req", "rebalance") for o in ops):
+            return None
+        kind = r.choice(["importation", "death", "transition", "crude_birth", "absolute"])
+        o = {"op": "flow", "kind": kind, "name": "cnt0", "param": "1/2", "expected": 0}
+        if kind in ("death", "transition", "absolute"):
+            o["src"] = comps[0]
+        if kind != "death":
+            o["dst"] = comps[-1] if kind in ("transition", "absolute") else comps[0]
+        if o.get("src") is not None and o.get("src") == o.get("dst"):
+            return None
+        ops.append(o)
+        return q, len(ops)
     if cls == "rate_not_a_number":
         # a flow rate that is neither a number nor a graph object, at any point where a flow may be added
         i = len(ops)
@@ -276,7 +290,7 @@ CLASSES = ["end_before_start", "timestep_not_dividing", "timestep_not_dividing_l
            "adjustment_omits_stratum", "infectiousness_omits_stratum", "split_omits_stratum", "split_negative", "split_not_one",
            "second_birth_flow", "second_age", "second_strain", "duplicate_stratification", "duplicate_universal_death",
            "duplicate_output_name", "mixing_on_partial", "age_on_partial", "mixing_on_strain", "unequal_source_dest",
-           "flow_count_expectation", "after_finalize", "rate_not_a_number", "output_for_unmatched_compartment",
+           "flow_count_expectation", "flow_count_zero", "after_finalize", "rate_not_a_number", "output_for_unmatched_compartment",
            "output_for_unmatched_flow", "unknown_flow_compartments_both"]
 
 
